@@ -306,10 +306,8 @@ KNOWN_DIVERGENCES = [
     # KNOWN_FINDINGS.txt.  Empty: the two divergences found while building this check (cg_1to1_read_global_f on a base
     # without interfaces, cg_goto_fc1 on a file that is not open) were repaired in /repo (f111087, 0fdcd3c); their
     # witnesses are in corpus/C20/ and a regression is an ordinary VIOLATION.
-    # Still open after f111087: with an Unstructured zone in the base cg_n1to1_global counts 0 (OK) but
-    # cg_1to1_read_global returns CG_ERROR; the wrapper returns early with 0 and never calls it.
-    ("wrapper:cg_1to1_read_global_f:ok-with-unstructured-zone",
-     lambda op, w, d: op.startswith("1to1_read_global ") and w.startswith("1to1_read_global ier=0 ") and d.startswith("1to1_read_global ier=1 ")),
+    # A third one (base with an Unstructured zone: cg_n1to1_global counts 0 but cg_1to1_read_global fails) was repaired
+    # by 24ffd90; witness in corpus/C20/ as well.
 ]
 
 
